@@ -20,7 +20,10 @@ def run(ctx):
     cases = []
     for f in fens:
         if ctx["tier"] == "quick":
-            seqs = [["d3"], ["d2", "d3"], ["d3", "d3"]] + ([["d4", "d3"]] if npieces(f) <= 4 else [])
+            two_heavy = sum(ch in "QRqr" for ch in f.split()[0]) >= 2      # the Coq evaluation of depth 4 is too slow there
+            seqs = [["d3"], ["d2", "d3"], ["d3", "d3"]] + ([["d4", "d3"]] if npieces(f) <= 4 and not two_heavy else [])
+            if two_heavy and npieces(f) <= 4:
+                seqs = [["d3"], ["d2", "d3"]]
         else:
             seqs = SEQS if npieces(f) <= 6 else SEQS[:4]
         for sq in seqs:
